@@ -211,6 +211,9 @@ class LoopMixin:
     def cut_for_body(self, node, frame, spec, header, n, elem):
         run = self.run
         run.cut = True
+        if not hasattr(run, "loops_reached"):
+            run.loops_reached = set()
+        run.loops_reached.add(header)      # `reached_loop('<header text>')` in postconditions: the statement was reached (whatever its iteration count)
         # a local accumulator the contract declares (spec["types"]) that no longer exists under that name, while the loop body writes exactly one
         # local container the contract does not know: the accumulator was renamed -- the contract's name becomes an alias of the new one
         vis = self.visible_locals(frame)
